@@ -647,7 +647,48 @@ Proof.
   - destruct H as (H1 & H2). split; [exact H2|apply H1].
 Qed.
 
+(* ---------- check_arxml_header ---------- *)
+Theorem check_total : exists b, check_arxml_header strict T tab_el tab_at tab_en check_fn float_parse bs = Val b.
+Proof.
+  unfold check_arxml_header. destruct ver_401 as (v401 & ->). destruct (root_ok T TOK) as (e & rt & EE & ER & RTOK).
+  rewrite EE. destruct (init_pinv v401 (ed_name e)) as [Hi Hn].
+  set (n := List.length bs) in *.
+  match goal with |- context [match ?m (init_pstate bs v401 (ed_name e)) with _ => _ end] => set (m0 := m) end.
+  assert (TOT : tot2 (S n) m0 (fun _ => True)).
+  { unfold m0. apply tot2_pnext_bind. intros ev EB.
+    destruct ev; try (apply tot2_of_tot1, tot1_ret; exact I). cbn [pred].
+    apply tot2_pnext_bind. intros tok EBt.
+    assert (SK : forall F, (F <= n)%nat -> tot2 F (mbind (skip_comments (S n) None tok)
+       (fun x => let '(_, token) := x in
+          match token with
+          | EvBegin elemname attributes_text =>
+              mbind (lift (name_of tab_el elemname)) (fun nm =>
+              match nm with
+              | Some n0 =>
+                  if (n0 =? ed_name e)%N
+                  then mbind (root_type T) (fun rt =>
+                       mbind (parse_attribute_text strict T tab_at tab_en check_fn float_parse rt attributes_text) (fun attributes =>
+                       mbind (parse_file_header strict tab_at attributes) (fun _ => ret true)))
+                  else ret false
+              | None => ret false
+              end)
+          | _ => ret false
+          end)) (fun _ => True)).
+    { intros F LF. eapply tot2_bind; [apply tot2_skip_comments; [lia|exact EBt]|]. intros [stored token] ET. cbn [snd] in ET.
+      destruct token; try (apply tot2_of_tot1, tot1_ret; exact I). destruct ET as [ET1 ET2].
+      destruct (name_of_total tab_el name NEL) as (nm & ->).
+      change (mbind (lift (Val nm)) ?k) with (k nm). cbv beta.
+      destruct nm as [n0|]; [|apply tot2_of_tot1, tot1_ret; exact I].
+      destruct (n0 =? ed_name e)%N; [|apply tot2_of_tot1, tot1_ret; exact I].
+      unfold root_type. rewrite ER. change (mbind (lift (Val rt)) ?k) with (k rt). cbv beta.
+      eapply tot2_bind1; [apply tot1_parse_attribute_text; [exact RTOK|exact ET2]|]. intros attributes _.
+      eapply tot2_bind1; [apply tot1_parse_file_header|]. intros _ _. apply tot2_of_tot1, tot1_ret; exact I. }
+    destruct tok; cbn [pred]; apply SK; try apply Nat.le_pred_l; apply Nat.le_refl. }
+  specialize (TOT _ Hi Hn). destruct (m0 (init_pstate bs v401 (ed_name e))) as [[b st|er st]| |]; [eauto|eauto|destruct TOT|destruct TOT].
+Qed.
+
 End PP.
+
 
 (* ---------- statements for Properties/C02.v ---------- *)
 Definition loader_hyps (T : tables) (tab_el tab_at tab_en : nametab) (check_fn : N -> list N -> res bool) : Prop :=
@@ -680,3 +721,8 @@ Proof.
   pose proof (load_total strict T tab_el tab_at tab_en check_fn float_parse bs H1 H2 H3 H4 H5 H6 HB) as H.
   rewrite E in H. exact H.
 Qed.
+
+Theorem check_total_closed strict T tab_el tab_at tab_en check_fn float_parse bs :
+  loader_hyps T tab_el tab_at tab_en check_fn -> bytes_ok bs = true ->
+  exists b, check_arxml_header strict T tab_el tab_at tab_en check_fn float_parse bs = Val b.
+Proof. intros (H1 & H2 & H3 & H4 & H5 & H6) HB. apply check_total; assumption. Qed.
